@@ -210,14 +210,15 @@ def Done (I : IState) (st : SSt) (j : Nat) : Prop :=
   (HasType st.infos (I.cls j).ns (I.cls j).tn ∧ (I.cls j).ns ∈ st.trace ∧
    ((I.cls j).kind = .complex →
       HasElem st.infos ((I.cls j).elemNs I.tns) (I.cls j).elemName ∧ (I.cls j).elemNs I.tns ∈ st.trace ∧
-      ∀ f ∈ (I.cls j).fields, f.isAttr = false → f.ty ∈ st.tags))
+      (∀ f ∈ (I.cls j).fields, f.isAttr = false → f.isData = false → f.ty ∈ st.tags) ∧
+      (∀ f ∈ (I.cls j).fields, f.isData = true → f.inner ∈ st.tags)))
 
 theorem Done.mono {I : IState} {a b : SSt} (h : Le a b) {j : Nat} (hd : Done I a j) : Done I b j := by
   rcases hd with hd | ⟨h1, h2, h3⟩
   · exact Or.inl hd
   · refine Or.inr ⟨h.types _ _ h1, h.trace _ h2, fun hc => ?_⟩
-    obtain ⟨e1, e2, e3⟩ := h3 hc
-    exact ⟨h.elems _ _ e1, h.trace _ e2, fun f hf ha => h.tags _ (e3 f hf ha)⟩
+    obtain ⟨e1, e2, e3, e4⟩ := h3 hc
+    exact ⟨h.elems _ _ e1, h.trace _ e2, fun f hf ha hd => h.tags _ (e3 f hf ha hd), fun f hf hd => h.tags _ (e4 f hf hd)⟩
 
 /-- every tagged class is rendered, except those whose handler is still running (`P`) -/
 def Q (I : IState) (P : List Nat) (st : SSt) : Prop := ∀ j ∈ st.tags, j ∈ P ∨ Done I st j
@@ -231,36 +232,67 @@ theorem Q.mono {I : IState} {P : List Nat} {a b : SSt} (h : Le a b) (hq : Q I P 
 
 /-- the acyclic numbering of the class table, as far as `add` needs it -/
 def Ranked (I : IState) : Prop :=
-  ∀ i, i < I.classes.length → ∀ f ∈ (I.cls i).fields, f.isAttr = false → f.ty < i
+  ∀ i, i < I.classes.length → ∀ f ∈ (I.cls i).fields,
+    (f.isAttr = false → f.isData = false → f.ty < i) ∧ (f.isData = true → f.inner < i)
 
 theorem fieldsLoop_spec (I : IState) (rec : Nat → SSt → SSt) (P : List Nat) (fs : List Field)
-    (hrec : ∀ f ∈ fs, f.isAttr = false → ∀ st, Q I P st → (Q I P (rec f.ty st) ∧ Le st (rec f.ty st) ∧ f.ty ∈ (rec f.ty st).tags))
+    (hrec : ∀ f ∈ fs, f.isAttr = false → f.isData = false → ∀ st, Q I P st →
+      (Q I P (rec f.ty st) ∧ Le st (rec f.ty st) ∧ f.ty ∈ (rec f.ty st).tags))
     (st : SSt) (hq : Q I P st) :
     Q I P (fieldsLoop I rec fs st) ∧ Le st (fieldsLoop I rec fs st) ∧
-    ∀ f ∈ fs, f.isAttr = false → f.ty ∈ (fieldsLoop I rec fs st).tags := by
+    ∀ f ∈ fs, f.isAttr = false → f.isData = false → f.ty ∈ (fieldsLoop I rec fs st).tags := by
   induction fs generalizing st with
   | nil => exact ⟨hq, Le.refl st, fun f hf => by cases hf⟩
   | cons f fs ih =>
     simp only [fieldsLoop]
-    by_cases ha : f.isAttr = true
+    by_cases ha : (f.isAttr || f.isData) = true
     · simp only [ha, if_true]
       obtain ⟨q1, l1, t1⟩ := ih (fun g hg => hrec g (List.mem_cons_of_mem _ hg)) st hq
       refine ⟨q1, l1, ?_⟩
-      intro g hg hga
+      intro g hg hga hgd
       rcases List.mem_cons.mp hg with rfl | hg
-      · rw [ha] at hga; cases hga
-      · exact t1 g hg hga
-    · have ha' : f.isAttr = false := by simpa using ha
-      simp only [ha', Bool.false_eq_true, if_false]
-      obtain ⟨q0, l0, t0⟩ := hrec f List.mem_cons_self ha' st hq
+      · simp [hga, hgd] at ha
+      · exact t1 g hg hga hgd
+    · have ha' : f.isAttr = false ∧ f.isData = false := by simpa using ha
+      simp only [ha, Bool.false_eq_true, if_false]
+      obtain ⟨q0, l0, t0⟩ := hrec f List.mem_cons_self ha'.1 ha'.2 st hq
       have q0' : Q I P ((rec f.ty st).touch (I.cls f.ty).ns) :=
         Q.mono (le_touch _ _) q0 (fun j hj => hj)
       obtain ⟨q1, l1, t1⟩ := ih (fun g hg => hrec g (List.mem_cons_of_mem _ hg)) _ q0'
       refine ⟨q1, (l0.trans (le_touch _ _)).trans l1, ?_⟩
-      intro g hg hga
+      intro g hg hga hgd
       rcases List.mem_cons.mp hg with rfl | hg
       · exact l1.tags _ t0
-      · exact t1 g hg hga
+      · exact t1 g hg hga hgd
+
+theorem dataLoop_spec (I : IState) (rec : Nat → SSt → SSt) (P : List Nat) (fs : List Field)
+    (hrec : ∀ f ∈ fs, f.isData = true → ∀ st, Q I P st →
+      (Q I P (rec f.inner st) ∧ Le st (rec f.inner st) ∧ f.inner ∈ (rec f.inner st).tags))
+    (st : SSt) (hq : Q I P st) :
+    Q I P (dataLoop I rec fs st) ∧ Le st (dataLoop I rec fs st) ∧
+    ∀ f ∈ fs, f.isData = true → f.inner ∈ (dataLoop I rec fs st).tags := by
+  induction fs generalizing st with
+  | nil => exact ⟨hq, Le.refl st, fun f hf => by cases hf⟩
+  | cons f fs ih =>
+    simp only [dataLoop]
+    by_cases hd : f.isData = true
+    · simp only [hd, if_true]
+      obtain ⟨q0, l0, t0⟩ := hrec f List.mem_cons_self hd st hq
+      have q0' : Q I P ((rec f.inner st).touch (I.cls f.inner).ns) :=
+        Q.mono (le_touch _ _) q0 (fun j hj => hj)
+      obtain ⟨q1, l1, t1⟩ := ih (fun g hg => hrec g (List.mem_cons_of_mem _ hg)) _ q0'
+      refine ⟨q1, (l0.trans (le_touch _ _)).trans l1, ?_⟩
+      intro g hg hgd
+      rcases List.mem_cons.mp hg with rfl | hg
+      · exact l1.tags _ t0
+      · exact t1 g hg hgd
+    · simp only [hd, Bool.false_eq_true, if_false]
+      obtain ⟨q1, l1, t1⟩ := ih (fun g hg => hrec g (List.mem_cons_of_mem _ hg)) st hq
+      refine ⟨q1, l1, ?_⟩
+      intro g hg hgd
+      rcases List.mem_cons.mp hg with rfl | hg
+      · exact absurd hgd hd
+      · exact t1 g hg hgd
 
 /-- **`add` renders the class and everything its members need**, whatever is still pending -/
 theorem addCls_spec (I : IState) (hr : Ranked I) (fuel : Nat) :
@@ -323,11 +355,19 @@ theorem addCls_spec (I : IState) (hr : Ranked I) (fuel : Nat) :
         have l0 := le_touchOpt { st with tags := i :: st.tags } I (I.cls i).ext
         have q0 : Q I (i :: P) (({ st with tags := i :: st.tags } : SSt).touchOpt I (I.cls i).ext) :=
           Q.mono l0 hq1 (fun j hj => by cases he : (I.cls i).ext <;> simpa [SSt.touchOpt, he, SSt.touch] using hj)
-        obtain ⟨q1, l1, t1⟩ := fieldsLoop_spec I (addCls I fuel) (i :: P) (I.cls i).fields
-          (fun f hf ha st' hq' => ih f.ty (by have := hr i hi' f hf ha; omega) (by omega) (i :: P) st' hq') _ q0
+        obtain ⟨qd, ld, td⟩ := dataLoop_spec I (addCls I fuel) (i :: P) (I.cls i).fields
+          (fun f hf hd st' hq' => ih f.inner (by have := (hr i hi' f hf).2 hd; omega) (by omega) (i :: P) st' hq') _ q0
+        obtain ⟨q1, l1', t1⟩ := fieldsLoop_spec I (addCls I fuel) (i :: P) (I.cls i).fields
+          (fun f hf ha hd st' hq' => ih f.ty (by have := (hr i hi' f hf).1 ha hd; omega) (by omega) (i :: P) st' hq') _ qd
+        have l1 := ld.trans l1'
+        have td' : ∀ f ∈ (I.cls i).fields, f.isData = true → f.inner ∈ (fieldsLoop I (addCls I fuel) (I.cls i).fields
+            (dataLoop I (addCls I fuel) (I.cls i).fields
+              (({ st with tags := i :: st.tags } : SSt).touchOpt I (I.cls i).ext))).tags :=
+          fun f hf hd => l1'.tags _ (td f hf hd)
         -- the rest of the handler
         generalize hS : fieldsLoop I (addCls I fuel) (I.cls i).fields
-          (({ st with tags := i :: st.tags } : SSt).touchOpt I (I.cls i).ext) = S at q1 l1 t1
+          (dataLoop I (addCls I fuel) (I.cls i).fields
+            (({ st with tags := i :: st.tags } : SSt).touchOpt I (I.cls i).ext)) = S at q1 l1 t1 td'
         have l2 := le_trace S (attrTrace I (I.cls i).fields)
         have l3 := le_addType { S with trace := S.trace ++ attrTrace I (I.cls i).fields } (I.cls i) (nodeOf I (I.cls i))
         have h3 := addType_has { S with trace := S.trace ++ attrTrace I (I.cls i).fields } (I.cls i) (nodeOf I (I.cls i))
@@ -343,9 +383,11 @@ theorem addCls_spec (I : IState) (hr : Ranked I) (fuel : Nat) :
           rw [← hS3] at hj
           simpa [addElement, SSt.touch, addType] using hj
         refine ⟨close _ (Q.mono lall q1 hsame) ?_, ((le_tag st i).trans (l0.trans l1)).trans lall, ?_⟩
-        · refine Or.inr ⟨(l4.trans l5).types _ _ h3.1, (l4.trans l5).trace _ h3.2, fun _ => ⟨h5.1, h5.2, ?_⟩⟩
-          intro f hf ha
-          exact lall.tags _ (t1 f hf ha)
+        · refine Or.inr ⟨(l4.trans l5).types _ _ h3.1, (l4.trans l5).trace _ h3.2, fun _ => ⟨h5.1, h5.2, ?_, ?_⟩⟩
+          · intro f hf ha hd
+            exact lall.tags _ (t1 f hf ha hd)
+          · intro f hf hd
+            exact lall.tags _ (td' f hf hd)
         · exact lall.tags _ (l1.tags _ (l0.tags _ List.mem_cons_self))
 
 end SpyneModel.Wsdl
